@@ -1,14 +1,108 @@
 import Driver.Proto
-/-! Driver sub-command `fasta` (stub – filled in by its cluster). -/
+import PtVerif.Model.Fasta
+import Std.Data.HashMap
+/-! Driver sub-command `fasta`: biomolecule sequences and FASTA reading (C18) at `Float`.
+
+Strings cross the protocol as the hex digits of their UTF-8 bytes (`-` = empty string). -/
 namespace Driver.FastaCmd
-open Driver
+open PtModel PtModel.Fasta PtNum Driver
 
 structure St where
-  dummy : Unit := ()
+  mass : Std.HashMap (Nat × Nat) Float := {}
+  me : Float := 0
 
 def init : St := {}
 
+def St.massFn (st : St) (z a : Nat) : Float := (st.mass.get? (z, a)).getD (0.0 / 0.0)
+def St.am (st : St) : Atom → Float := atomMass st.massFn st.me
+
+def unhex (s : String) : Option (List Char) :=
+  if s = "-" then some [] else
+  let cs := s.toList
+  if cs.length % 2 ≠ 0 then none else
+  let rec go : List Char → ByteArray → Option ByteArray
+    | a :: b :: r, acc => do
+        let x ← hexVal a; let y ← hexVal b
+        go r (acc.push (UInt8.ofNat (x * 16 + y)))
+    | [], acc => some acc
+    | _, _ => none
+  match go cs ByteArray.empty with
+  | some bytes => (String.fromUTF8? bytes).map String.toList
+  | none => none
+
+def hexOf (cs : List Char) : String :=
+  if cs.isEmpty then "-" else
+  let bytes := (String.ofList cs).toUTF8
+  String.join (bytes.toList.map fun b =>
+    String.ofList [Nat.digitChar (b.toNat / 16), Nat.digitChar (b.toNat % 16)])
+
+def tableOf (ty : String) : Option (Table Float) :=
+  match ty with
+  | "aa" => aaTable
+  | "dna" => dnaTable
+  | "rna" => rnaTable
+  | _ => none
+
+def typeName : SeqType → String
+  | .aa => "aa" | .dna => "dna" | .rna => "rna"
+
+def showRecs (rs : List (List Char × List Char)) : String :=
+  "recs" ++ String.join (rs.map fun (n, s) => " " ++ hexOf n ++ " " ++ hexOf s)
+
 def handle (st : St) : Toks → IO St
+  | ["mass", z, a, m] =>
+    match natTok z, natTok a, readF m with
+    | some z, some a, some m => pure { st with mass := st.mass.insert (z, a) m }
+    | _, _, _ => do reply "ERR bad-op"; pure st
+  | ["me", m] =>
+    match readF m with
+    | some m => pure { st with me := m }
+    | none => do reply "ERR bad-op"; pure st
+  | ["seq", ty, hx] => do
+    match tableOf ty, unhex hx with
+    | some t, some s =>
+      match sequence st.am t s with
+      | some m =>
+        reply s!"ok {showF m.vol} {showF m.charge} {showF m.mass} {showF m.dmass} {showF m.density} | {showItems m.labile} | {showItems m.natural}"
+      | none => reply "ERR KeyError"
+    | _, _ => reply "ERR bad-op"
+    pure st
+  | ["code", ty, hx] => do
+    match tableOf ty, unhex hx with
+    | some t, some [c] =>
+      match t.find c with
+      | some r => reply s!"ok {showF r.vol} {showF r.charge} | {showItems r.struct}"
+      | none => reply "ERR KeyError"
+    | _, _ => reply "ERR bad-op"
+    pure st
+  | ["codes", ty] => do
+    match tableOf ty with
+    | some t => reply ("codes " ++ hexOf (t.map (·.1)))
+    | none => reply "ERR bad-op"
+    pure st
+  | ["formula", hx] => do
+    match unhex hx with
+    | some s =>
+      match dispatch s with
+      | .seq t rest => reply s!"seq {typeName t} {hexOf rest}"
+      | .chem _ => reply "chem"
+    | none => reply "ERR bad-op"
+    pure st
+  | ["fasta", hx] => do
+    match unhex hx with
+    | some text => reply (showRecs (readFasta (splitLines text)))
+    | none => reply "ERR bad-op"
+    pure st
+  | "lines" :: hxs => do
+    match hxs.mapM unhex with
+    | some ls => reply (showRecs (readFasta ls))
+    | none => reply "ERR bad-op"
+    pure st
+  | ["ftype", fn, ty] => do
+    match unhex fn, (if ty = "none" then some none else (unhex ty).map some) with
+    | some f, some t => reply (hexOf (guessType f t))
+    | _, _ => reply "ERR bad-op"
+    pure st
   | _ => do reply "ERR bad-op"; pure st
 
 end Driver.FastaCmd
